@@ -37,7 +37,7 @@ def worker_closure(facts):
 
 def run(ctx):
     facts = ctx.facts
-    with ctx.rule("C08.BUFFER", "per-file buffer cleared, printed exactly once; one printer per worker", floor=4, kind="DOM/PASS") as r:
+    with ctx.rule("C08.BUFFER", "per-file buffer cleared, printed exactly once whether the search succeeded or failed; one printer per worker", floor=6, kind="DOM/PASS") as r:
         clo = worker_closure(facts)
         if clo is None:
             r.bad("closure", "anchor-missing: no per-entry closure calling SearchWorker::search in search_parallel")
@@ -51,26 +51,27 @@ def run(ctx):
             else:
                 r.bad("clear", "the worker's buffer is not cleared before each search: a previous file's output would be printed again",
                       fn=clo, construct="clear")
-            if len(pr) != 1:
-                r.bad("print", "expected exactly one BufferWriter::print per file, found %d" % len(pr), fn=clo, construct="print")
-            else:
-                s = seed_after_call(clo, se, V("Ok", None))
-                rets = [b for b in s.exec_blocks if clo.blocks[b]["term"]["k"] == "return"]
-                esc = C.all_paths_pass(clo, [se.target], {pr[0].bb}, [b for b in rets])
-                # restrict to executable region under Ok
-                esc = [b for b in esc if b in s.exec_blocks and pr[0].bb not in s.exec_blocks] or \
-                    ([] if pr[0].bb in s.exec_blocks and not _ret_without(clo, s, pr[0].bb, se.target) else ["x"])
-                if esc:
-                    r.bad("print", "a successful search can finish without its buffer being printed (or the path skips print)",
-                          fn=clo, loc=se.loc, construct="print")
-                elif pr[0].bb in C.reach(clo, [pr[0].target]):
-                    r.bad("print", "the buffer can be printed twice", fn=clo, construct="print")
+            hd_ = {h for _, h in C.back_edges(clo)}
+            for outcome, seedv, key, txt in (("Ok", V("Ok", None), "print", "a successful search"),
+                                             ("Err", V("Err", None), "print|error", "a search that failed part-way")):
+                s = seed_after_call(clo, se, seedv, stop_blocks=hd_)
+                here = [c for c in pr if c.bb in s.exec_blocks]
+                if len(here) != 1:
+                    r.bad(key, "%s is followed by %d BufferWriter::print call(s) (exactly one expected): %s" % (
+                        txt, len(here), "what it found before failing is dropped, while the single-threaded search has already "
+                        "printed it" if outcome == "Err" else "its block is dropped or printed twice"), fn=clo, loc=se.loc, construct="print")
+                    continue
+                p_ = here[0]
+                if _ret_without(clo, s, p_.bb, se.target):
+                    r.bad(key, "%s can finish without its buffer being printed" % txt, fn=clo, loc=se.loc, construct="print")
+                elif p_.bb in C.reach(clo, [p_.target]):
+                    r.bad(key, "the buffer can be printed twice", fn=clo, construct="print")
                 else:
-                    r.ok("print", "Ok(search) ⇒ exactly one BufferWriter::print before returning", fn=clo)
-                if mentions_call(eb.operand(pr[0].args[1]), "rg::search::SearchWorker::printer"):
-                    r.ok("print|what", "prints this worker's own buffer", fn=clo)
+                    r.ok(key, "%s(search) ⇒ exactly one BufferWriter::print before returning" % outcome, fn=clo)
+                if mentions_call(eb.operand(p_.args[1]), "rg::search::SearchWorker::printer"):
+                    r.ok(key + "|what", "prints this worker's own buffer", fn=clo)
                 else:
-                    r.bad("print|what", "BufferWriter::print is given `%s`" % show(eb.operand(pr[0].args[1]))[:60], fn=clo)
+                    r.bad(key + "|what", "BufferWriter::print is given `%s`" % show(eb.operand(p_.args[1]))[:60], fn=clo)
             fac = [c for c in facts.closures_of("rg::search_parallel", recursive=False)]
             cloned = any(c.path.endswith("Clone::clone") and "SearchWorker" in (c.func.get("resolved") or "") +
                          " ".join(c.func.get("targs", [])) for f in fac for c in f.calls())
